@@ -38,9 +38,7 @@ impl ProtoFmt for GenesisRaw {
         let protocol_version = ProtocolVersion(r.protocol_version.context("protocol_version")?);
         let validators_schedule = match protocol_version.0 {
             2 => read_optional(&r.validators_schedule).context("validators_schedule")?,
-            _ => {
-                unreachable!();
-            }
+            v => anyhow::bail!("unsupported protocol version: {v}"),
         };
 
         Ok(GenesisRaw {
